@@ -8,6 +8,11 @@ G3 == {1, 2, 3}
 G4 == {1, 2, 3, 4}
 T3 == {"t1", "t2", "t3"}
 T4 == {"t1", "t2", "t3", "t4"}
+T2 == {"t1", "t2"}
+G2 == {1, 2}
+NoSamples == {}
+S2 == {"s1", "s2"}
+S3 == {"s1", "s2", "s3"}
 N8 == {8}
 NMany == {2, 8, 16}
 
